@@ -216,7 +216,9 @@ impl Flounder {
         let reserve = 5_000; // Try to always keep 5 seconds
         let available = time_left.saturating_sub(reserve);
         let base_time = available / 25;
-        let allocated = base_time + increment;
+        // Never budget more than half of what is left on the mover's clock, so an increment larger
+        // than the remaining time cannot make the allocation exceed the clock
+        let allocated = (base_time + increment).min(time_left / 2);
 
         Some(Duration::from_millis(allocated))
     }
